@@ -154,8 +154,9 @@ func (g *pathGen) recordCall(s *pstate, c *ast.CallExpr, lhs []ast.Expr) {
 			s.calls = append(s.calls, "recv "+exprString(g.fset, u.X))
 		}
 	}
-	// timer operations are recorded with their arguments (which duration a timer is armed with matters)
-	if strings.HasSuffix(name, "NewTimer") || strings.HasSuffix(name, ".Reset") {
+	// timer operations and writes are recorded with their arguments (which duration a timer is armed with, what is
+	// handed to the connection)
+	if strings.HasSuffix(name, "NewTimer") || strings.HasSuffix(name, ".Reset") || strings.HasSuffix(name, ".Write") {
 		s.calls = append(s.calls, exprString(g.fset, c))
 	} else {
 		s.calls = append(s.calls, name)
@@ -165,6 +166,7 @@ func (g *pathGen) recordCall(s *pstate, c *ast.CallExpr, lhs []ast.Expr) {
 			s.lastDef[id.Name] = name
 		}
 	}
+	_ = lhs
 }
 
 func (g *pathGen) simple(s *pstate, st ast.Stmt) {
@@ -297,6 +299,12 @@ func (g *pathGen) walk(stmts []ast.Stmt, s pstate, ex pexits, done func(pstate))
 			next(s2)
 		}}
 		g.walk(v.Body.List, it, lex, func(s2 pstate) { g.emit(s2, "loop") })
+		if v.Cond != nil {
+			// the loop condition fails: what follows the loop is a family of paths of its own as well
+			after := s.clone()
+			after.guards, after.calls = []pguard{{exprString(g.fset, v.Cond), false}}, nil
+			next(after)
+		}
 	case *ast.SelectStmt:
 		for _, c := range v.Body.List {
 			cc := c.(*ast.CommClause)
@@ -423,6 +431,14 @@ func (g *pathGen) retString(s pstate, results []ast.Expr) []string {
 				parts = append(parts, id.Name)
 				continue
 			}
+			if d, ok := s.lastDef[id.Name]; ok {
+				parts = append(parts, "result:"+d)
+				continue
+			}
+		}
+		if sel, ok := r.(*ast.SelectorExpr); ok {
+			parts = append(parts, "value:"+exprString(g.fset, sel))
+			continue
 		}
 		if i == 1 || len(results) == 1 {
 			parts = append(parts, errClass(g.fset, r))
@@ -436,7 +452,7 @@ func (g *pathGen) retString(s pstate, results []ast.Expr) []string {
 func genPaths(pkg *packages.Package) {
 	fns := map[string]bool{"openSent": true, "openConfirm": true, "established": true, "handleNotificationInErr": true,
 		"drainAndResetHoldTimer": true, "sendOpenAndSetHoldTimer": true, "cleanupConnAndReader": true, "sendNotification": true,
-		"sendKeepAlive": true, "startReading": true, "idle": true, "connect": true, "active": true, "dialPeer": true, "closeDialedConn": true}
+		"sendKeepAlive": true, "startReading": true, "idle": true, "connect": true, "active": true, "dialPeer": true, "closeDialedConn": true, "WriteUpdate": true, "read": true}
 	var all []codePath
 	for _, file := range pkg.Syntax {
 		if filepath.Base(pkg.Fset.Position(file.Pos()).Filename) != "fsm.go" {
@@ -447,7 +463,7 @@ func genPaths(pkg *packages.Package) {
 			if !ok || fd.Body == nil || fd.Recv == nil || !fns[fd.Name.Name] {
 				continue
 			}
-			if exprString(pkg.Fset, fd.Recv.List[0].Type) != "*fsm" {
+			if rt := exprString(pkg.Fset, fd.Recv.List[0].Type); rt != "*fsm" && !(rt == "*updateMessageWriter" && fd.Name.Name == "WriteUpdate") {
 				continue
 			}
 			g := &pathGen{fset: pkg.Fset, fn: fd.Name.Name, closures: map[string]*ast.FuncLit{}}
